@@ -130,6 +130,81 @@ Proof.
 Qed.
 Print Assumptions C18_worker_death_hangs_refuted.
 
+(* ---- record_processing.pre_process_sequences, the caller through which Records cross the process boundary.
+   gf is an arbitrary gene finder, o the options, cfg the configured worker count, sched1/sched2 arbitrary schedules
+   of the two pools; pre_process_inproc is the same pipeline with every call made in-process ---- *)
+
+(* "same result for every worker count": whatever the worker count and the schedules, a returned
+   (triggered_limit, records) is the in-process result - whole records, all fields of the model *)
+Theorem C18_preprocess_workers_irrelevant : forall gf o cfg sched1 sched2 recs out,
+  pre_process gf o cfg sched1 sched2 recs = Ok out -> pre_process_inproc gf o recs = Ok out.
+Proof. exact preprocess_workers_irrelevant. Qed.
+Print Assumptions C18_preprocess_workers_irrelevant.
+
+(* an error of the in-process run (empty sequence, no record matching the filter, a raising gene finder, all records
+   skipped) is an error for every worker count - never a list *)
+Theorem C18_preprocess_failure_surfaces : forall gf o cfg sched1 sched2 recs e0,
+  pre_process_inproc gf o recs = Err e0 -> exists e, pre_process gf o cfg sched1 sched2 recs = Err e.
+Proof. exact preprocess_failure_surfaces. Qed.
+Print Assumptions C18_preprocess_failure_surfaces.
+
+(* one configured worker: the in-process run itself *)
+Theorem C18_preprocess_cpus1 : forall gf o sched1 sched2 recs,
+  pre_process gf o 1 sched1 sched2 recs = pre_process_inproc gf o recs.
+Proof. exact preprocess_cpus1. Qed.
+Print Assumptions C18_preprocess_cpus1.
+
+(* when the in-process run returns, the run with workers returns the same or never returns (no timeout is passed,
+   so a lost chunk hangs: finding C18-K1); no other list, no error *)
+Theorem C18_preprocess_no_spurious_outcome : forall gf o cfg sched1 sched2 recs out,
+  1 <= cfg -> pre_process_inproc gf o recs = Ok out ->
+  pre_process gf o cfg sched1 sched2 recs = Ok out \/ pre_process gf o cfg sched1 sched2 recs = Err E_Fuel.
+Proof. exact preprocess_no_spurious_outcome. Qed.
+Print Assumptions C18_preprocess_no_spurious_outcome.
+
+(* not vacuous: for every worker count >= 1 and every batch there are schedules under which it returns *)
+Theorem C18_preprocess_completing_schedules_exist : forall gf o cfg recs out,
+  1 <= cfg -> pre_process_inproc gf o recs = Ok out ->
+  exists sched1 sched2, pre_process gf o cfg sched1 sched2 recs = Ok out.
+Proof. exact preprocess_completing_schedules_exist. Qed.
+Print Assumptions C18_preprocess_completing_schedules_exist.
+
+(* "records come back with the same content": with sanitising on and a gene finder that leaves id, index and sequence
+   alone, the returned records are - in argument order, one per input record - the input ids, the indices 1..n and
+   the sanitised input sequences, for every worker count and schedule *)
+Theorem C18_preprocess_keeps_batch : forall gf o cfg sched1 sched2 recs hit out,
+  gf_keeps gf -> o_checking o = true ->
+  pre_process gf o cfg sched1 sched2 recs = Ok (hit, out) ->
+  map r_id out = map r_id recs /\
+  map r_index out = zrange 1 (length recs) /\
+  map r_seq out = map (fun r => fst (sanitise_chars (r_seq r))) recs.
+Proof. exact preprocess_keeps_batch. Qed.
+Print Assumptions C18_preprocess_keeps_batch.
+
+(* sanitise_sequence always returns; the result has bases A C G T N only, is a fixed point of sanitising (so it does
+   not matter whether a worker's copy or the caller's instance was sanitised, or both), keeps id, index, features and
+   the rest, and carries the flag "contains no sequence" exactly when the input has no a/c/g/t in either case *)
+Theorem C18_sanitise_spec : forall r, exists r',
+  sanitise_sequence r = Ok r' /\
+  Forall clean_base (r_seq r') /\
+  sanitise_sequence r' = Ok r' /\
+  r_id r' = r_id r /\ r_index r' = r_index r /\ r_ncds r' = r_ncds r /\ r_rest r' = r_rest r /\
+  r_skip r' = (if existsb (fun c => is_acgt (upper c)) (r_seq r) then r_skip r else S_NoSeq).
+Proof. exact sanitise_spec. Qed.
+Print Assumptions C18_sanitise_spec.
+
+(* the decidable specification evaluated on every pre_process_sequences output at run time *)
+Theorem C18_preprocess_model_meets_spec : forall gf o cfg sched1 sched2 recs,
+  1 <= cfg -> pre_process gf o cfg sched1 sched2 recs <> Err E_Fuel ->
+  pp_spec_ok gf o recs (pre_process gf o cfg sched1 sched2 recs) = true.
+Proof. exact pp_model_meets_spec. Qed.
+Print Assumptions C18_preprocess_model_meets_spec.
+
+Theorem C18_preprocess_spec_ok_sound : forall gf o recs x,
+  pp_spec_ok gf o recs (Ok x) = true -> pre_process_inproc gf o recs = Ok x.
+Proof. exact pp_spec_ok_sound. Qed.
+Print Assumptions C18_preprocess_spec_ok_sound.
+
 (* ---- non-vacuity: concrete inputs meeting the hypotheses ---- *)
 (* 3 workers, 5 calls, completion order 2,1,0 then 4,3: the list comes back in argument order *)
 Example C18_ex_reordered :
@@ -164,3 +239,16 @@ Example C18_ex_cpus :
   parallel_function (fun t => t) 1 0 (Some 0) [] [Ok 1; Ok 2] = Ok [1; 2] /\
   parallel_function (fun t => t) (-2) 0 None [] [Ok 1] = Err E_Value.
 Proof. vm_compute. repeat split; reflexivity. Qed.
+
+(* pre-processing with 2 workers, 3 records (3 chunks), completion order reversed in both pools: record 2 has only
+   gaps/unknown bases but an annotated CDS - it comes back with its sequence sanitised ("n-N-" -> "NN") AND the flag
+   "contains no sequence" set on the worker's copy; record 3 has no CDS and gets "No genes found" (gene finding off) *)
+Example C18_ex_preprocess :
+  let sched := [Start 0; Start 1; Finish 1; Finish 0; Start 1; Finish 1] in
+  let recs := [mkR 1 0 [97; 67; 45; 103; 82] 0 1 500; mkR 2 0 [110; 45; 78; 45] 0 1 600; mkR 3 0 [65; 65] 0 0 700] in
+  let o := mkO true None 0 (-1) false in
+  pre_process (fun r => Ok r) o 2 sched sched recs
+  = Ok (false, [mkR 1 1 [65; 67; 71; 78] 0 1 500; mkR 2 2 [78; 78] S_NoSeq 1 600; mkR 3 3 [65; 65] S_NoGenes 0 700]) /\
+  pre_process_inproc (fun r => Ok r) o recs = pre_process (fun r => Ok r) o 2 sched sched recs /\
+  gf_keeps (fun r => Ok r).
+Proof. split; [vm_compute; reflexivity|]. split; [vm_compute; reflexivity|]. intros r r' H. inversion H. reflexivity. Qed.
